@@ -7,35 +7,9 @@ From Coq Require Import String List NArith ZArith Bool Lia.
 From J5V.lib Require Import Outcome.
 From J5V.gen Require Id62Gen.
 From J5V.model Require Import RulesDecl RulesWrite RulesRead RulesNested RulesSpec Validate RulesSpecDec RulesNestedSem.
-From J5V.proofs Require Import RulesProofs RulesReadProofs RulesNestedProofs.
+From J5V.model Require Import RulesOneof.
+From J5V.proofs Require Import RulesProofs RulesReadProofs RulesNestedProofs RulesDecides RulesOneofProofs.
 Import ListNotations.
-
-(* a verdict that decides a proposition: accept iff it holds, reject iff it does not
-   (so it is never an error) *)
-Definition decides (a : verdict) (P : Prop) : Prop := (a = VAccept <-> P) /\ (a = VReject <-> ~ P).
-
-Lemma decides_accept : decides VAccept True.
-Proof. split; split; intro H; try exact I; try reflexivity; try discriminate. exfalso. apply H. exact I. Qed.
-
-Lemma decides_iff a P Q : (P <-> Q) -> decides a P -> decides a Q.
-Proof. intros H [Ha Hr]. split; [rewrite Ha; exact H|rewrite Hr; rewrite H; reflexivity]. Qed.
-
-Lemma decides_vworst a b P Q : decides a P -> decides b Q -> decides (vworst a b) (P /\ Q).
-Proof.
-  intros [Ha Hra] [Hb Hrb]. split.
-  - rewrite vworst_accept, Ha, Hb. reflexivity.
-  - split.
-    + intros Hv [HP HQ]. apply Ha in HP. apply Hb in HQ. rewrite HP, HQ in Hv. discriminate.
-    + intro Hn.
-      assert (Ea : a = VAccept \/ a = VReject).
-      { destruct a as [| |k]; auto. exfalso.
-        assert (HnP : ~ P) by (intro HP; apply Ha in HP; discriminate). apply Hra in HnP. discriminate. }
-      assert (Eb : b = VAccept \/ b = VReject).
-      { destruct b as [| |k]; auto. exfalso.
-        assert (HnQ : ~ Q) by (intro HQ; apply Hb in HQ; discriminate). apply Hrb in HnQ. discriminate. }
-      destruct Ea as [Ea|Ea], Eb as [Eb|Eb]; subst; cbn; try reflexivity.
-      exfalso. apply Hn. split; [apply Ha|apply Hb]; reflexivity.
-Qed.
 
 (* ---- the reference does not matter for validation ---- *)
 Lemma set_ref_elem n d : elem_ty (p_ty (set_ref n d)) = set_ref_ty n (elem_ty (p_ty d)).
@@ -62,6 +36,15 @@ Proof.
   destruct ty as [t|r s t|r t]; destruct t; reflexivity.
 Qed.
 
+Lemma member_decl_set_ref n d : member_decl (set_ref n d) = member_decl d.
+Proof. unfold member_decl, set_ref. cbn [p_ty p_opt]. destruct (p_ty d) as [t|r s t|r t]; try reflexivity; destruct t; reflexivity. Qed.
+
+Lemma member_sem_set_ref pat_sem env n d fv : member_sem pat_sem env (set_ref n d) fv = member_sem pat_sem env d fv.
+Proof.
+  unfold member_sem. change (as_optional (set_ref n d)) with (set_ref n (as_optional d)).
+  rewrite rule_sem_set_ref. reflexivity.
+Qed.
+
 Lemma resolve_cases here f :
   resolve here f = nf_prop f \/ exists n, resolve here f = set_ref n (nf_prop f).
 Proof. destruct f as [d [s|]]; cbn [resolve nf_prop]; [right; eexists; reflexivity|left; reflexivity]. Qed.
@@ -74,6 +57,27 @@ Lemma fvalue_typed_resolve here f fv : fvalue_typed (resolve here f) fv = fvalue
 Proof. destruct (resolve_cases here f) as [->|[n ->]]; [reflexivity|apply fvalue_typed_set_ref]. Qed.
 Lemma rule_sem_resolve pat_sem env here f fv : rule_sem pat_sem env (resolve here f) fv = rule_sem pat_sem env (nf_prop f) fv.
 Proof. destruct (resolve_cases here f) as [->|[n ->]]; [reflexivity|apply rule_sem_set_ref]. Qed.
+
+Lemma member_decl_resolve here f : member_decl (resolve here f) = member_decl (nf_prop f).
+Proof. destruct (resolve_cases here f) as [->|[n ->]]; [reflexivity|apply member_decl_set_ref]. Qed.
+Lemma member_sem_resolve pat_sem env here f fv : member_sem pat_sem env (resolve here f) fv = member_sem pat_sem env (nf_prop f) fv.
+Proof. destruct (resolve_cases here f) as [->|[n ->]]; [reflexivity|apply member_sem_set_ref]. Qed.
+
+Lemma member_obj_resolve pat_sem env here : forall fields fvs,
+  member_obj pat_sem env (map (resolve here) fields) fvs <-> member_obj pat_sem env (map nf_prop fields) fvs.
+Proof.
+  unfold member_obj. induction fields as [|f r IH]; intros fvs; cbn [map].
+  - split; intro H; inversion H; constructor.
+  - split; intro H; inversion H as [|? ? ? ? H1 H2]; subst; constructor.
+    + rewrite <- member_sem_resolve with (here := here). exact H1.
+    + apply IH. exact H2.
+    + rewrite member_sem_resolve. exact H1.
+    + apply IH. exact H2.
+Qed.
+
+Lemma forallb_member_resolve here : forall fields,
+  forallb member_decl (map (resolve here) fields) = forallb member_decl (map nf_prop fields).
+Proof. induction fields as [|f r IH]; [reflexivity|]. cbn [map forallb]. rewrite member_decl_resolve, IH. reflexivity. Qed.
 
 Lemma typed_obj_resolve here : forall fields fvs,
   typed_obj (map (resolve here) fields) fvs = typed_obj (map nf_prop fields) fvs.
@@ -106,12 +110,12 @@ Hypothesis Hwf : wf_env env = true.
 
 Local Notation vtree := (validate_tree re_ok re_match (defined_numbers env)).
 
-(* the trees the theorem is about: objects (members of a proto oneof have presence the
-   flat model does not give them), every property with its keys placed and evaluable *)
+(* the trees the theorem is about: every property with its keys placed and evaluable; the
+   options of a oneof are member declarations (singular, not explicitly optional) *)
 Fixpoint tree_evaluable (s : nschema) : bool :=
   match s with
   | NS k _ _ fields =>
-      match k with RObject => true | ROneof => false end
+      match k with RObject => true | ROneof => forallb member_decl (map nf_prop fields) end
       && (fix go (fs : list nfield) : bool :=
             match fs with
             | [] => true
@@ -170,13 +174,17 @@ Lemma validate_tree_eq o nested fvs inner :
 Proof. reflexivity. Qed.
 Lemma rule_tree_eq k on desc fields fvs inner :
   rule_tree pat_sem env (NS k on desc fields) (MV fvs inner) =
-  (rule_obj pat_sem env (map nf_prop fields) fvs /\ rt_inner_sem fields inner).
+  (match k with
+   | RObject => rule_obj pat_sem env (map nf_prop fields) fvs
+   | ROneof => member_obj pat_sem env (map nf_prop fields) fvs
+   end /\ rt_inner_sem fields inner).
 Proof. reflexivity. Qed.
 Lemma typed_tree_eq k on desc fields fvs inner :
   typed_tree (NS k on desc fields) (MV fvs inner) = typed_obj (map nf_prop fields) fvs && ty_inner fields fvs inner.
 Proof. reflexivity. Qed.
 Lemma tree_evaluable_eq k on desc fields :
-  tree_evaluable (NS k on desc fields) = match k with RObject => true | ROneof => false end && ev_inner fields.
+  tree_evaluable (NS k on desc fields) =
+  match k with RObject => true | ROneof => forallb member_decl (map nf_prop fields) end && ev_inner fields.
 Proof. reflexivity. Qed.
 
 Lemma ev_inner_props here : forall fields, ev_inner fields = true ->
@@ -193,7 +201,7 @@ Qed.
 
 Definition tree_decides (s : nschema) : Prop :=
   forall path name m v, tree_evaluable s = true -> write_schema env path name s = Ok m ->
-    typed_tree s v = true -> decides (vtree m v) (rule_tree pat_sem env s v).
+    typed_tree s v = true -> decides (vtree (c12_view m) v) (rule_tree pat_sem env s v).
 
 Lemma all_decides s m : forall vs,
   (forall x, typed_tree s x = true -> decides (vtree m x) (rule_tree pat_sem env s x)) ->
@@ -208,7 +216,7 @@ Qed.
 Lemma inner_decides here : forall fields fvs inner ms,
   Forall (fun f => match f with NF _ (Some s) => tree_decides s | NF _ None => True end) fields ->
   ev_inner fields = true -> write_inner env here fields = Ok ms -> ty_inner fields fvs inner = true ->
-  decides (vt_inner ms inner) (rt_inner_sem fields inner).
+  decides (vt_inner (map c12_view ms) inner) (rt_inner_sem fields inner).
 Proof.
   induction fields as [|[d [s|]] r IH]; intros fvs inner ms HQ Hev Hw Hty.
   - inversion Hw; subst ms. destruct fvs; [|discriminate]. destruct inner; [|discriminate]. exact decides_accept.
@@ -218,7 +226,7 @@ Proof.
     apply obind_ok in Hw as [m [Hm Hw]]. apply obind_ok in Hw as [ms' [Hms Hw]]. inversion Hw; subst ms.
     destruct fvs as [|fv fr]; [discriminate|]. destruct inner as [|vs ir]; [discriminate|].
     cbn [ty_inner] in Hty. apply andb_true_iff in Hty as [Hty Htyr]. apply andb_true_iff in Hty as [_ Hall].
-    cbn [vt_inner rt_inner_sem]. apply decides_vworst.
+    cbn [map vt_inner rt_inner_sem]. apply decides_vworst.
     + apply all_decides; [|exact Hall]. intros x Hx. exact (Hs here (inner_name d s) m x Hes Hm Hx).
     + exact (IH fr ir ms' Hrest Hevr Hms Htyr).
   - inversion HQ as [|? ? _ Hrest]; subst.
@@ -230,16 +238,25 @@ Qed.
 Theorem c12_tree : forall s, tree_decides s.
 Proof.
   apply nschema_ind'. intros k on desc fields HQ path name m [fvs inner] Hev Hw Hty.
-  rewrite tree_evaluable_eq in Hev. apply andb_true_iff in Hev as [Hk Hev]. destruct k; [|discriminate].
+  rewrite tree_evaluable_eq in Hev. apply andb_true_iff in Hev as [Hk Hev].
   rewrite write_schema_eq in Hw. apply obind_ok in Hw as [o [Ho Hw]]. apply obind_ok in Hw as [ms [Hms Hw]].
   inversion Hw; subst m. rewrite typed_tree_eq in Hty. apply andb_true_iff in Hty as [Hto Hti].
-  rewrite validate_tree_eq, rule_tree_eq. apply decides_vworst.
-  - unfold write_root in Ho. apply obind_ok in Ho as [os [Hos Ho]]. inversion Ho; subst o. cbn [ro_fields].
-    cbn [rd_props] in Hos. unfold write_object in Hos.
-    destruct (ev_inner_props (path ++ [name]) fields Hev) as [Hkp Hevl].
-    apply (decides_iff _ _ _ (rule_obj_resolve pat_sem env (path ++ [name]) fields fvs)).
-    apply (c12_object re_ok re_match pat_sem re_dec re_id62_ok re_id62 env _ 0%N os fvs Hwf Hkp Hevl Hos).
-    rewrite typed_obj_resolve. exact Hto.
+  unfold write_root in Ho. apply obind_ok in Ho as [os [Hos Ho]]. inversion Ho; subst o.
+  cbn [rd_props rd_kind rd_name rd_desc] in Hos. unfold write_object in Hos.
+  cbn [c12_view ro_name ro_comment ro_msgopt ro_fields].
+  rewrite validate_tree_eq, rule_tree_eq. cbn [ro_fields].
+  destruct (ev_inner_props (path ++ [name]) fields Hev) as [Hkp Hevl].
+  apply decides_vworst.
+  - destruct k.
+    + apply (decides_iff _ _ _ (rule_obj_resolve pat_sem env (path ++ [name]) fields fvs)).
+      apply (c12_object re_ok re_match pat_sem re_dec re_id62_ok re_id62 env _ 0%N os fvs Hwf Hkp Hevl Hos).
+      rewrite typed_obj_resolve. exact Hto.
+    + apply (decides_iff _ _ _ (member_obj_resolve pat_sem env (path ++ [name]) fields fvs)).
+      apply (c12_members re_ok re_match pat_sem re_dec re_id62_ok re_id62 env Hwf _ 0%N os fvs).
+      * rewrite forallb_member_resolve. exact Hk.
+      * exact Hevl.
+      * exact Hos.
+      * rewrite typed_obj_resolve. exact Hto.
   - exact (inner_decides (path ++ [name]) fields fvs inner ms HQ Hev Hms Hti).
 Qed.
 
@@ -265,16 +282,29 @@ Definition rb_inner : list nfield -> list (list mvalue) -> bool :=
 
 Lemma rule_treeb_eq k on desc fields fvs inner :
   rule_treeb re_match env (NS k on desc fields) (MV fvs inner) =
-  rule_objb re_match env (map nf_prop fields) fvs && rb_inner fields inner.
+  match k with
+  | RObject => rule_objb re_match env (map nf_prop fields) fvs
+  | ROneof => member_objb re_match env (map nf_prop fields) fvs
+  end && rb_inner fields inner.
 Proof. reflexivity. Qed.
 
 Theorem rule_treeb_spec : forall s v, rule_treeb re_match env s v = true <-> rule_tree pat_sem env s v.
 Proof.
   apply (nschema_ind' (fun s => forall v, rule_treeb re_match env s v = true <-> rule_tree pat_sem env s v)).
   intros k on desc fields HQ [fvs inner].
-  rewrite rule_treeb_eq, rule_tree_eq, andb_true_iff, (rule_objb_spec re_match pat_sem re_dec env).
+  rewrite rule_treeb_eq, rule_tree_eq, andb_true_iff.
+  assert (Hhead : (match k with
+                   | RObject => rule_objb re_match env (map nf_prop fields) fvs
+                   | ROneof => member_objb re_match env (map nf_prop fields) fvs
+                   end = true) <->
+                  match k with
+                  | RObject => rule_obj pat_sem env (map nf_prop fields) fvs
+                  | ROneof => member_obj pat_sem env (map nf_prop fields) fvs
+                  end).
+  { destruct k; [apply (rule_objb_spec re_match pat_sem re_dec env)|apply (member_objb_spec re_match pat_sem re_dec env)]. }
+  rewrite Hhead.
   assert (Hin : forall inner, rb_inner fields inner = true <-> rt_inner_sem pat_sem env fields inner).
-  { clear fvs inner. induction fields as [|[d [s|]] r IH]; intros inner; cbn [rb_inner rt_inner_sem].
+  { clear Hhead fvs inner. induction fields as [|[d [s|]] r IH]; intros inner; cbn [rb_inner rt_inner_sem].
     - destruct inner; split; intro H; try exact I; try reflexivity; try discriminate; destruct H.
     - inversion HQ as [|? ? Hs Hrest]; subst. destruct inner as [|vs ir]; [split; [discriminate|intros []]|].
       rewrite andb_true_iff, (IH Hrest ir).
